@@ -461,9 +461,15 @@ func (e *engine) mergeDelta() error {
 			queryArgs[i] = fact.Args[i]
 		}
 		queryExisting := ast.Atom{pred, queryArgs}
-		existing := false
+		// Collect the existing facts first: the store must not be modified from
+		// within a GetFacts callback (a concurrent store holds its lock there).
+		var existingFacts []ast.Atom
 		e.store.GetFacts(queryExisting, func(existingFact ast.Atom) error {
-			existing = true
+			existingFacts = append(existingFacts, existingFact)
+			return nil
+		})
+		existing := len(existingFacts) > 0
+		mergeWithExisting := func(existingFact ast.Atom) error {
 			if fact.Equals(existingFact) {
 				return nil // nothing to do.
 			}
@@ -501,7 +507,12 @@ func (e *engine) mergeDelta() error {
 				e.store.Add(fact) // fact and existingFact are incomparable.
 			}
 			return nil
-		})
+		}
+		for _, existingFact := range existingFacts {
+			if err := mergeWithExisting(existingFact); err != nil {
+				break
+			}
+		}
 		if !existing {
 			e.store.Add(fact)
 		}
